@@ -274,3 +274,57 @@ func H_C12_shape() {
 		vrtAssert(err == nil && got == nil, "slice of a non-array, non-string is null")
 	}
 }
+
+// H_C12_spellings: the number spellings the grammar allows for slice parts
+// and index literals (a sign, leading zeros) denote their value: "-0" and
+// "00" are zero (a zero step is an invalid-value error, whatever its
+// spelling), "01" is one, "-01" is minus one.
+var c12Spell = []string{"", "0", "-0", "00", "1", "01", "-1", "-01", "2", "-2", "3", "-3"}
+var c12SpellVal = []int{0, 0, 0, 0, 1, 1, -1, -1, 2, -2, 3, -3}
+
+func H_C12_spellings() {
+	a := vrtChoose("start", len(c12Spell))
+	b := vrtChoose("stop", len(c12Spell))
+	c := vrtChoose("step", len(c12Spell))
+	onString := vrtBool("string")
+	expr := "[" + c12Spell[a] + ":" + c12Spell[b] + ":" + c12Spell[c] + "]"
+	vrtNote("template:" + expr)
+	var doc any
+	if onString {
+		doc = "abcd"
+		expr = "@" + expr
+	} else {
+		doc = []any{int64(0), int64(1), int64(2), int64(3)}
+	}
+	got, err := Search(expr, doc)
+	step := c12SpellVal[c]
+	if c == 0 {
+		step = 1
+	}
+	if step == 0 {
+		vrtAssert(err != nil && errors.Is(err, ErrInvalidValue), "a zero step is an invalid-value error in every spelling")
+		return
+	}
+	vrtAssert(err == nil, "slice evaluates")
+	if err != nil {
+		return
+	}
+	idx := refSliceIndices(4, c12SpellVal[a], c12SpellVal[b], step, a != 0, b != 0)
+	if onString {
+		s, ok := got.(string)
+		vrtAssert(ok && len(s) == len(idx), "string slice length")
+		if ok && len(s) == len(idx) {
+			for i, j := range idx {
+				vrtAssert(s[i] == "abcd"[j], "string slice selects the characters of the walk")
+			}
+		}
+		return
+	}
+	arr, ok := got.([]any)
+	vrtAssert(ok && len(arr) == len(idx), "array slice length")
+	if ok && len(arr) == len(idx) {
+		for i, j := range idx {
+			vrtAssert(arr[i] == any(int64(j)), "array slice selects the elements of the walk")
+		}
+	}
+}
